@@ -463,7 +463,9 @@ def run_worker(worker, wcases, timeout=120, env=None):
             except subprocess.TimeoutExpired:
                 desc = "hang (no answer within 20 s)"
         else:
-            desc = ("hang (timeout)" if timed_out else "crash rc=%s" % rc) + " " + tail
+            full = err.decode(errors="replace")
+            summ = [ln for ln in full.splitlines() if ln.startswith("SUMMARY: ")]
+            desc = ("hang (timeout)" if timed_out else "crash rc=%s" % rc) + " " + (summ[0] + " " if summ else "") + tail
         crashes.append((culprit["id"], desc))
         pending = pending[n + 1:]
     return answers, crashes
